@@ -35,7 +35,7 @@ def rexpr(e, top=True) -> str:
         v = e["v"]
         if v < 0:
             return f"-{-v}" if top else f"(-{-v})"
-        return f"0x{v:x}" if v > 9 else str(v)
+        return f"0x{v:x}" if v > 9 and not e.get("dec") else str(v)
     if k == "id":
         return e["n"]
     if k == "big":
@@ -304,9 +304,9 @@ class Gen:
                 out.append({"k": "scope", "n": self.fresh("n"), "b": self.stmts(depth + 1, r.randint(1, 4), in_macro)})
             elif x < 0.93 and self.moves_on and in_macro is None and depth == 0:
                 if r.random() < 0.55:
-                    out.append({"k": "stareq", "e": num(self.rom_addr())})
+                    out.append({"k": "stareq", "e": dict(num(self.rom_addr()), dec=r.random() < 0.3)})
                 else:
-                    out.append({"k": "ateq", "e": num(self.reloc_addr())})
+                    out.append({"k": "ateq", "e": dict(num(self.reloc_addr()), dec=r.random() < 0.3)})
             elif x < 0.97 and self.macros_on and self.macro_defs and in_macro is None:
                 m = r.choice(self.macro_defs)
                 out.append({"k": "apply", "n": m["n"], "as": [self.code_arg() if p_ in m.get("_code", ()) else self.hole("arg") for p_ in m["ps"]]})
@@ -346,8 +346,12 @@ class Gen:
                 self.macro_defs.append(m)
                 body.append(m)
         if self.rom in self.CUSTOM:
-            body = [{"k": "map", "decl": d} for d in self.CUSTOM[self.rom]] + body
             d0 = self.CUSTOM[self.rom][0]
+            # sometimes a position move stands BEFORE the .map lines (the declarations hold for the whole program)
+            # (placed so that its bytes cross the end of the first bank's window: the bus in force decides where they go on)
+            early = [{"k": "stareq", "e": num((d0["b0"] << 16) + d0["hi"] - 1)}, {"k": "data", "d": "db", "es": [num(0xE1), num(0xE2), num(0xE3)]},
+                     {"k": "label", "n": self.fresh("l")}, {"k": "data", "d": "db", "es": [num(0xE4)]}] if r.random() < 0.3 else []
+            body = early + [{"k": "map", "decl": d} for d in self.CUSTOM[self.rom]] + body
             body.append({"k": "stareq", "e": num((d0["b0"] << 16) + d0["lo"] + r.choice([0, 0, 0x100]))})
         else:
             start = 0xC00000 if self.rom == "high" else 0x008000
